@@ -228,14 +228,17 @@ package route
 //@ spec fun wfRoute(r *Route) bool opaque = r != nil && (forall j int :: 0 <= j && j < len(r.Targets) ==> r.Targets[j] != nil) && (len(r.Targets) > 1 ==> len(r.wTargets) > 0) && (forall j int :: 0 <= j && j < len(r.wTargets) ==> exists i int :: 0 <= i && i < len(r.Targets) && r.wTargets[j] == r.Targets[i])
 //@ spec fun wfRoutes(rt Routes) bool = forall k int :: 0 <= k && k < len(rt) ==> wfRoute(rt[k])
 //@ spec fun wfTable(t Table) bool = forall h string :: wfRoutes(t[h])
+//@ // every target of the table has a URL
+//@ spec fun targetsOK(t Table) bool = forall h string, k int, j int :: 0 <= k && k < len(t[h]) && 0 <= j && j < len(t[h][k].Targets) ==> t[h][k].Targets[j].URL != nil
 //@
 //@ func (Table).lookup
 //@   props C03 C06
-//@   requires wfTable(t) && pick != nil && match != nil
+//@   requires wfTable(t) && targetsOK(t) && pick != nil && match != nil
 //@   assigns Route.total
 //@   ensures nopanic
 //@   // routed only to a target of the first route (in table order) whose path matches
 //@   ensures result != nil ==> exists k int :: 0 <= k && k < len(t[toLower(host)]) && matchesFn(match, path, t[toLower(host)][k]) && (forall j int :: 0 <= j && j < k ==> !matchesFn(match, path, t[toLower(host)][j])) && (exists i int :: 0 <= i && i < len(t[toLower(host)][k].Targets) && result == t[toLower(host)][k].Targets[i])
+//@   ensures result != nil ==> result.URL != nil
 //@   // and it is routed whenever the first matching route has a target
 //@   ensures result == nil ==> forall k int :: 0 <= k && k < len(t[toLower(host)]) && matchesFn(match, path, t[toLower(host)][k]) && (forall j int :: 0 <= j && j < k ==> !matchesFn(match, path, t[toLower(host)][j])) ==> len(t[toLower(host)][k].Targets) == 0
 //@   loop 1 invariant forall j int :: 0 <= j && j <= rangeindex ==> !matchesFn(match, path, t[host][j])
@@ -271,8 +274,8 @@ package route
 //@   assigns nothing
 //@   ensures nopanic
 //@   // exactly the (lower-cased) host patterns equal to the request host, case-insensitively and without default port
-//@   ensures forall p string :: hasKey(t, p) && normHost(p, req.TLS != nil) == normHost(req.Host, req.TLS != nil) ==> inList(hosts, toLower(p))
-//@   ensures forall x string :: inList(hosts, x) ==> exists p string :: hasKey(t, p) && x == toLower(p) && normHost(p, req.TLS != nil) == normHost(req.Host, req.TLS != nil)
+//@   ensures [local] forall p string :: hasKey(t, p) && normHost(p, req.TLS != nil) == normHost(req.Host, req.TLS != nil) ==> inList(hosts, toLower(p))
+//@   ensures [local] forall x string :: inList(hosts, x) ==> exists p string :: hasKey(t, p) && x == toLower(p) && normHost(p, req.TLS != nil) == normHost(req.Host, req.TLS != nil)
 //@   ensures hosts == nil || fresh(hosts)
 //@   loop 1 invariant hosts == nil || fresh(hosts)
 //@   loop 1 invariant forall p string :: visited(p) && normHost(p, req.TLS != nil) == normHost(req.Host, req.TLS != nil) ==> inList(hosts, toLower(p))
@@ -286,8 +289,8 @@ package route
 //@   ensures gcInv(globCache) && len(globCache.l) == old(len(globCache.l))
 //@   ensures hosts == nil || fresh(hosts)
 //@   // exactly the host patterns whose glob matches the request host (both without default port, lower case)
-//@   ensures forall p string :: hasKey(t, p) && globOK(normHost(p, req.TLS != nil)) && globMatches(normHost(p, req.TLS != nil), normHost(req.Host, req.TLS != nil)) ==> inList(hosts, p)
-//@   ensures forall x string :: inList(hosts, x) ==> hasKey(t, x) && globMatches(normHost(x, req.TLS != nil), normHost(req.Host, req.TLS != nil))
+//@   ensures [local] forall p string :: hasKey(t, p) && globOK(normHost(p, req.TLS != nil)) && globMatches(normHost(p, req.TLS != nil), normHost(req.Host, req.TLS != nil)) ==> inList(hosts, p)
+//@   ensures [local] forall x string :: inList(hosts, x) ==> hasKey(t, x) && globMatches(normHost(x, req.TLS != nil), normHost(req.Host, req.TLS != nil))
 //@   loop 1 invariant hosts == nil || fresh(hosts)
 //@   loop 1 invariant gcInv(globCache) && len(globCache.l) == old(len(globCache.l))
 //@   loop 1 invariant forall p string :: visited(p) && globOK(normHost(p, req.TLS != nil)) && globMatches(normHost(p, req.TLS != nil), normHost(req.Host, req.TLS != nil)) ==> inList(hosts, p)
@@ -295,7 +298,7 @@ package route
 //@
 //@ func (Table).LookupHost
 //@   props C03
-//@   requires wfTable(t) && pick != nil
+//@   requires wfTable(t) && targetsOK(t) && pick != nil
 //@   assigns Route.total
 //@   ensures nopanic
 //@
@@ -309,10 +312,10 @@ package route
 //@
 //@ func (Table).Lookup
 //@   props C03 C06 C13
-//@   requires req != nil && req.URL != nil && pick != nil && match != nil && wfTable(t)
+//@   requires req != nil && req.URL != nil && pick != nil && match != nil && wfTable(t) && targetsOK(t)
 //@   requires globDisabled || (gcInv(globCache) && len(globCache.l) > 0)
-//@   requires forall h string, k int, j int :: 0 <= k && k < len(t[h]) && 0 <= j && j < len(t[h][k].Targets) ==> t[h][k].Targets[j].URL != nil
 //@   // the only effects of a lookup visible to other requests: the round-robin cursor and the host-pattern cache
 //@   assigns Route.total, req.URL.Host, globCache.n, globCache.h, globCache.l[*], smapGlobs
 //@   ensures nopanic
 //@   loop 1 invariant wfTable(t)
+//@   loop 1 invariant targetsOK(t)
